@@ -64,11 +64,25 @@ fn problem(k: usize, backward: bool) -> (Prob, f64) {
         // so stiff that only the stiffness detectors of DOPRI5 / DOP853 bound the work (about a thousand steps
         // instead of span * 1e7 / 3.3): they have to work in both directions
         11 => (mk("stiff decay 1e7 (work bounded by the stiffness detector)", 1, vec![0.0], Arc::new(|t, y, d| d[0] = -1e7 * (y[0] - t.cos()))), 1.0),
+        // ... and at tight tolerances (rtol 1e-9), where the differences the detectors work with are tiny
+        12 => (mk("stiff decay 1e7 at rtol 1e-9 (work bounded by the stiffness detector)", 1, vec![0.0], Arc::new(|t, y, d| d[0] = -1e7 * (y[0] - t.cos()))), 1.0),
+        // far from the time origin with a first step below one ulp of x0 (x0 = ±1e9, ulp 1.2e-7, first_step 1e-8):
+        // x + h == x, no attempt can make progress; every method has to come back (with a non-success status)
+        13 => (mk("decay from x0=1e9 with a first step below ulp(x0)", 1, vec![1.0], Arc::new(|_t, y, d| d[0] = -y[0])), 1.0),
+        // a blow-up in the second component under per-component tolerances whose first component is nearly
+        // absolute-only (rtol = [1e-10, 1e-6], atol = [1, 1e-9]): the weak component must not set the scale for both
+        14 => (
+            mk("blowup in y1 with per-component tolerances", 2, vec![1.0, 0.0], Arc::new(|_t, y, d| {
+                d[0] = -y[0];
+                d[1] = 1.0 + y[1] * y[1];
+            })),
+            2.0,
+        ),
         5 => (mk("rhs discontinuous in t", 1, vec![1.0], Arc::new(|t, y, d| d[0] = -y[0] + if t > 0.7 { 5.0 } else { 0.0 })), 2.0),
         _ => (mk("rhs discontinuous in y", 1, vec![0.0], Arc::new(|_t, y, d| d[0] = if y[0] > 0.5 { -2.0 } else { 1.0 })), 1.0),
     }
 }
-const NPROB: usize = 12;
+const NPROB: usize = 15;
 /// real eigenvalue of the inverse Radau IIA matrix as written in radau.rs (the resonance scene is
 /// only a scene: if the constant differed the run would simply not meet a singular matrix)
 const RADAU_U1: f64 = 3.637_834_252_744_496;
@@ -82,7 +96,7 @@ struct Base {
     min_step: Option<f64>,
     /// first_step option (absolute length; the sign follows the direction)
     first_step: Option<f64>,
-    /// 7 requested times and dense output (values then come from the step interpolants)
+    /// 8 requested times (two of them an ulp apart) and dense output (values then come from the step interpolants)
     teval: bool,
     /// four event functions (more than state components), one of them terminal with count 2
     events: bool,
@@ -92,7 +106,7 @@ fn bases() -> Vec<Base> {
     let mut v = vec![];
     for m in M6 {
         for p in 0..NPROB {
-            if p == 11 && !matches!(m, Method::DOPRI5 | Method::DOP853) {
+            if (p == 11 || p == 12) && !matches!(m, Method::DOPRI5 | Method::DOP853) {
                 // without a stiffness detector the work is legitimately millions of steps (RK23 by stability, the
                 // implicit methods when the differenced Jacobian is made useless by the injected answers: measured
                 // 5.4e6 accepted steps, 1e8 calls, Success) - bounded, but beyond this check's budget of 1e6 calls
@@ -100,7 +114,8 @@ fn bases() -> Vec<Base> {
             }
             for backward in [false, true] {
                 for max_steps in [None, Some(40)] {
-                    let mins: Vec<Option<f64>> = if crate::run::is_implicit(m) { vec![None, Some(1e-3)] } else { vec![None] };
+                    // (a min_step above the given first step would be a contradictory configuration: not for problem 13)
+                    let mins: Vec<Option<f64>> = if crate::run::is_implicit(m) && p != 13 { vec![None, Some(1e-3)] } else { vec![None] };
                     for min_step in mins {
                         let span = problem(p, backward).1;
                         // automatic initial step; a first step of twice the interval (the solver trims
@@ -108,6 +123,7 @@ fn bases() -> Vec<Base> {
                         let fss: Vec<Option<f64>> = match p {
                             7 => vec![Some(1.185), Some(1.185 / 2.0)],
                             8 => vec![Some(1.0), Some(0.5)],
+                            13 => vec![Some(1e-8), None],
                             _ => vec![None, Some(2.0 * span)],
                         };
                         for first_step in fss {
@@ -138,6 +154,17 @@ fn cfg_of(b: &Base) -> (Prob, Cfg) {
     let (p, t) = problem(b.prob, b.backward);
     let xend = if b.backward { -t } else { t };
     let mut c = Cfg::new(b.method, 0.0, xend, &p.y0).tol(1e-4, 1e-6);
+    if b.prob == 12 {
+        c = c.tol(1e-9, 1e-11);
+    }
+    if b.prob == 14 {
+        c.rtol = crate::run::Tol::V(vec![1e-10, 1e-6]);
+        c.atol = crate::run::Tol::V(vec![1.0, 1e-9]);
+    }
+    if b.prob == 13 {
+        c.x0 = if b.backward { -1e9 } else { 1e9 };
+        c.xend = c.x0 + xend;
+    }
     if b.prob == 10 {
         c.x0 = -xend;
         c.xend = 0.0;
@@ -156,7 +183,10 @@ fn cfg_of(b: &Base) -> (Prob, Cfg) {
         ];
     }
     if b.teval {
-        c.t_eval = Some((0..=6).map(|i| xend * i as f64 / 6.0).collect());
+        // (two of the requested times are one ulp apart: a valid, strictly monotone list)
+        let mut te: Vec<f64> = (0..=6).map(|i| xend * i as f64 / 6.0).collect();
+        te.insert(4, te[3] * (1.0 + f64::EPSILON));
+        c.t_eval = Some(te);
         c.dense = true;
     }
     c.budget = std::env::var("VERIF_C04_BUDGET").ok().and_then(|v| v.parse().ok()).unwrap_or(1_000_000);
@@ -219,7 +249,7 @@ fn exec(b: &Base, faults: &[Fault], key: &str) -> CaseOut {
                 }
                 vs.push((format!("prefix:{}", k), m));
             }
-            if s.status == Status::Success && c.method != Method::RK4 && faults.is_empty() && matches!(b.prob, 2 | 3 | 10) {
+            if s.status == Status::Success && c.method != Method::RK4 && faults.is_empty() && matches!(b.prob, 2 | 3 | 10 | 14) {
                 vs.push(("success-through-singularity".into(), format!("the solution does not exist up to xend, yet the run is reported as Success (last sample t = {:e}, y = {:?})", s.t.last().copied().unwrap_or(f64::NAN), s.y.last())));
             }
             if s.status == Status::Success && c.method != Method::RK4 {
